@@ -30,7 +30,11 @@ T = {
     ("filter", "median"): {"filter_size": (3, [1, 3, 5, 7], [0, 2, 4, -3, 3.0, "3"])},
     ("filter", "bilateral"): {"sigma_color": (2.0, [0.1, 1.0, 2.0, 6.0], [0.0, -1.0, 2, "2.0"]),
                               "sigma_space": (6.0, [0.1, 1.0, 2.0, 6.0], [0.0, -2.5, 6, "6.0"])},
-    ("filter", "median_for_intervals"): {"filter_size": (3, [1, 3, 5], [0, 2, -1, 3.0])},
+    ("filter", "median_for_intervals"): {"filter_size": (3, [1, 3, 5], [0, 2, -1, 3.0]),
+                                         "ambiguity_threshold": (NODEF, [0.0, 0.3, 0.6, 1.0], [-0.1, 1.5]),
+                                         "quantile_regularization": (NODEF, [0.0, 0.5, 1.0], [-0.5, 1.1]),
+                                         "ambiguity_kernel_size": (NODEF, [1, 3, 5], [0, 2, -1]),
+                                         "vertical_depth": (NODEF, [0, 1, 2], [-1])},
     ("refinement", "vfit"): {},
     ("refinement", "quadratic"): {},
     ("cost_volume_confidence", "ambiguity"): {"eta_max": (0.7, [0.1, 0.5, 0.7, 0.99], [0.0, -0.1, 1]),
@@ -40,7 +44,12 @@ T = {
                                          "eta_step": (0.01, [0.01, 0.05, 0.1], [0.0, -0.01])},
     ("cost_volume_confidence", "std_intensity"): {},
     ("cost_volume_confidence", "interval_bounds"): {"possibility_threshold": (NODEF, [0.0, 0.5, 0.9, 1.0],
-                                                                              [-0.1, 1.5, "0.9"])},
+                                                                              [-0.1, 1.5, "0.9"]),
+                                                    "ambiguity_threshold": (NODEF, [0.0, 0.3, 0.6, 1.0], [-0.1, 1.5]),
+                                                    "quantile_regularization": (NODEF, [0.0, 0.5, 0.9, 1.0], [-0.5, 1.1]),
+                                                    "ambiguity_kernel_size": (NODEF, [1, 3, 5, 7], [0, 2, -1, 3.0]),
+                                                    "vertical_depth": (NODEF, [0, 1, 2], [-1, 1.0]),
+                                                    "regularization": (NODEF, [True, False], ["yes"])},
     ("validation", "cross_checking_accurate"): {"cross_checking_threshold": (1.0, [0, 1, 1.0, 0.5, 2], ["1", None]),
                                                 "interpolated_disparity": (NODEF, ["mc-cnn", "sgm"], ["foo", 3])},
     ("multiscale", "fixed_zoom_pyramid"): {"num_scales": (2, [2, 3, 5], [1, 0, -1, 2.0]),
